@@ -27,8 +27,15 @@ def oracle(c):
         except Exception as e:  # unparsable answer
             bad.append((k, f"unparsable tree: {e}"))
             continue
-        # 1. derivation tree from the start symbol
-        if not tp.valid(t, prods, nterms, d["start"]):
+        # 1. derivation tree from the start symbol (on a right-nulled table — documented as "used for GLR parsing", but
+        # selectable with the LR parser — reductions are shorter than the production where the tail is nullable: valid
+        # modulo elided nullable tails, as for GLR trees)
+        if c.settings[1] == "LALR_RN":
+            nullable_syms = {d["nterms"]} | {d["nterms"] + nt for nt, f in enumerate(d["firsts"][d["nterms"]:]) if d["empty"] in f}
+            okv = tp.valid_elided(t, prods, nterms, d["start"], nullable_syms)
+        else:
+            okv = tp.valid(t, prods, nterms, d["start"])
+        if not okv:
             bad.append((k, "tree is not a derivation from the start symbol"))
             continue
         # 2. leaves in order are exactly the tokens of the consumed input
@@ -84,6 +91,11 @@ def run(rep, tier, seed):
                           partial=("0", "1"), ws=("mixed", "layout"), gen_kw=dict(layout="comments"))
     cases += lf.bnf_cases(rng, max(10, n // 10), tts=("LALR_PAGER",), algo="LR", max_len=3, n_sent=8, n_mut=4,
                           partial=("0", "1"), ws=("mixed", "layout"), gen_kw=dict(layout="nested"))
+    # the LR parser on a RIGHT-NULLED table (parser_algo LR + table_type LALR_RN is selectable): reductions shorter than the
+    # production; outside the structural certificate (counted), decided by correspondence + oracle
+    cases += lf.bnf_cases(rng, max(20, n // 5), tts=("LALR_RN",), algo="LR", max_len=4, n_sent=10, n_mut=6,
+                          partial=("0", "1"), ws=("none", "mixed"), annot=True, extra_settings=settings_choice,
+                          gen_kw=dict(p_empty=0.3))
     lf.add_histories(rng, cases)
     lf.run_cases(cases, extra_requests=lambda c: ["cert structural 0 0"])
     check(rep, cases, proofs_ok)
@@ -96,6 +108,9 @@ def check(rep, cases, proofs_ok):
 
     def orc(c):
         bad = oracle(c)
+        if c.settings[1] == "LALR_RN":
+            rep.count("right_nulled_table(outside Cert.structural):" + ("cert=1" if c.extra[0] == "1" else "cert=0"))
+            return bad
         rep.count("cert_structural_" + ("pass" if c.extra[0] == "1" else "FAIL"))
         if c.extra[0] != "1":
             bad.append((None, "Cert.structural fails on the compiler's table: hypothesis of C02_tree_is_derivation not met"))
